@@ -812,6 +812,14 @@ def search_prng(ctx):
         elif w > 1 and max(abs(c - exp) for c in cnt.values()) > 6 * (exp ** 0.5):
             ctx.violation("randint-not-uniform", "frequencies of randint(a, b) deviate by more than 6 sigma",
                           {"a": a, "b": b, "counts": cnt})
+    # a wide domain (w = 3 * 2^30): without the rejection step the lower third would be hit twice as often
+    seed_prng(31337)
+    w3 = 3 * (1 << 30)
+    low = sum(1 for _ in range(6000) if sr.randint(-5, w3 - 6) < (1 << 30) - 5)
+    ctx.prop_case("randint-wide-uniform", w3)
+    if abs(low - 2000) > 6 * (6000 * (1 / 3) * (2 / 3)) ** 0.5:
+        ctx.violation("randint-not-uniform", "randint over a domain of 3*2^30 values hits the lowest third with frequency far from 1/3",
+                      {"a": -5, "b": w3 - 6, "draws": 6000, "in_lowest_third": low})
     # choice: every candidate, nothing else; shuffle: every permutation of 3 and 4 elements; random in [0, 1)
     seed_prng(99)
     cand = ["a", "b", "c", "d", "e"]
